@@ -5,6 +5,7 @@ skips the `buf_len()` bytes already recorded through the view, while `Uninit::se
 still count from the view's original `begin`.
 -/
 import Compio.Model.View
+import Compio.Model.ViewVec
 
 namespace Compio.Cex.C10
 open Compio Compio.View
@@ -47,5 +48,43 @@ theorem f6_writer_second_write_out_of_bounds_counterexample :
           | _ => false)
         | _ => false
       | _ => false) = true := by decide
+
+/-! ## vectored buffers -/
+
+def rootsOf (v : VBuf) : List (Nat × Bytes) := v.members.map fun m => (m.getRoot.len, m.getRoot.mem)
+
+/-- V3: `[Vec::with_capacity(2), vec![0x20]]` (not packed), one byte read: it is written to member 0, but
+`advance_vec_to(1)` compares with `total_len() = 1` and records nothing — the byte is lost -/
+theorem v3_unpacked_fill_lost_counterexample :
+    ((VBuf.base .list [.root ⟨.vec, 0, [0x10, 0x11]⟩, .root ⟨.vec, 1, [0x20]⟩]).fill [0xEE]).toOption.map rootsOf
+      = some [(0, [0xEE, 0x11]), (1, [0x20])] := by decide
+
+/-- V3: the doc example of `IoVectoredBuf::slice` (two 10-byte buffers holding 5 bytes each, `slice(6)`) used
+for a 6-byte read: `begin` counts initialised bytes, `set_len(begin + 6)` capacity: member 0 is declared fully
+initialised (5 never-written bytes exposed), member 1 is cut to 2 bytes -/
+theorem v3_slice_counts_initialised_bytes_counterexample :
+    (match (VBuf.base .list [.root ⟨.vec, 5, List.replicate 10 0⟩, .root ⟨.vec, 5, List.replicate 10 0⟩]).mkSlice 6 with
+      | .ok s => (s.fill [1, 2, 3, 4, 5, 6]).toOption.map fun v => (rootsOf v).map Prod.fst
+      | .error _ => none) = some [10, 2] := by decide
+
+/-- V2: `[b"hello world".slice(0..5), Vec::with_capacity(5)]` filled with 7 bytes: `default_set_len` calls
+`set_len(5)` on the (full) first member, which truncates its root from 11 to 5 bytes -/
+theorem v2_bounded_member_truncated_counterexample :
+    ((VBuf.base .list [.slice (.root ⟨.vec, 11, List.replicate 11 7⟩) 0 (some 5),
+        .root ⟨.vec, 0, List.replicate 5 0⟩]).fill (List.replicate 7 1)).toOption.map
+      (fun v => (rootsOf v).map Prod.fst) = some [5, 2] := by decide
+
+/-- V1: `[Vec::with_capacity(5); 2].owned_iter()`: fill 3 bytes, `next()`, fill 2 bytes: the container is told
+`set_len(3 + 2)`, which member 0 swallows (2 never-written bytes exposed), member 1 stays empty -/
+theorem v1_viter_partial_then_next_counterexample :
+    (match (VBuf.base .list [.root ⟨.vec, 0, List.replicate 5 0⟩, .root ⟨.vec, 0, List.replicate 5 0⟩]).ownedIter with
+      | .ok (.inr it) =>
+        match it.fill [1, 2, 3] with
+        | .ok it1 =>
+          match it1.next with
+          | .inr it2 => (it2.fill [4, 5]).toOption.map fun it3 => (rootsOf it3.buf).map Prod.fst
+          | .inl _ => none
+        | .error _ => none
+      | _ => none) = some [5, 0] := by decide
 
 end Compio.Cex.C10
